@@ -333,6 +333,8 @@ func init() {
 						// base name twice (stored as name and name.0)
 						scs = append(scs, sc{wParams{Dir: dir, Tree: "prefixnames", Timeout: 5}, kind.side, kind.del})
 						scs = append(scs, sc{wParams{Dir: dir, Tree: "samebase", Timeout: 5}, kind.side, kind.del})
+						// -y into a directory that already exists and holds other files: merged into, never "created"
+						scs = append(scs, sc{wParams{Dir: dir, Tree: "dir", Directory: true, Overwrite: true, DstPre: "c07:n--", Timeout: 5}, kind.side, kind.del})
 					}
 					if tier == "thorough" {
 						scs = append(scs, sc{wParams{Dir: dir, Tree: "small3", Protocol: 2, Timeout: 5}, kind.side, kind.del})
